@@ -19,6 +19,8 @@ import (
 	"strings"
 	"sync"
 
+	"github.com/spf13/viper"
+
 	"github.com/AliceO2Group/Control/apricot/cacheproxy"
 	"github.com/AliceO2Group/Control/apricot/local"
 )
@@ -82,7 +84,9 @@ type childCaller struct {
 	once   sync.Once
 }
 
-func newChildCaller(addr, tag string) (caller, error) {
+// newChildCaller starts a core instance in its own process; opts are viper
+// settings ("key=value") the child applies before it builds its Service.
+func newChildCaller(addr, tag string, opts []string) (caller, error) {
 	// /proc/self/exe is the running image even if the file was rebuilt meanwhile
 	exe := "/proc/self/exe"
 	if _, err := os.Stat(exe); err != nil {
@@ -94,7 +98,7 @@ func newChildCaller(addr, tag string) (caller, error) {
 	if err != nil {
 		return nil, err
 	}
-	cmd := exec.Command(exe, "--worker", addr, tag)
+	cmd := exec.Command(exe, append([]string{"--worker", addr, tag}, opts...)...)
 	var env []string
 	for _, kv := range os.Environ() {
 		if strings.HasPrefix(kv, "CONSUL_") || strings.HasPrefix(kv, "GORACE=") {
@@ -182,6 +186,11 @@ func workerMain(args []string) {
 		os.Exit(64)
 	}
 	addr := args[0]
+	for _, kv := range args[2:] {
+		if i := strings.Index(kv, "="); i > 0 {
+			viper.Set(kv[:i], kv[i+1:])
+		}
+	}
 	svc, err := local.NewService("consul://" + addr)
 	if err != nil {
 		fmt.Printf("FAIL %v\n", err)
